@@ -79,6 +79,10 @@ Render(c) ==
     [] c.k = "date" -> DateText(CivilOfSerial(c.serial)) \o <<" ">> \o TimeText(0)
     [] c.k = "datetime" -> DateText(CivilOfSerial(c.serial)) \o <<" ">> \o TimeText(c.sec)
     [] c.k = "time" -> TimeText(c.sec)
+    \* a point in time between two seconds (what =NOW() and clock time stamps give): the nearest whole second is shown, the
+    \* documented forms have no fraction
+    [] c.k = "datetimems" -> DateText(CivilOfSerial(c.serial)) \o <<" ">> \o TimeText(c.sec + (IF c.ms >= 500 THEN 1 ELSE 0))
+    [] c.k = "timems" -> TimeText(c.sec + (IF c.ms >= 500 THEN 1 ELSE 0))
 
 (* ------------------------------ the machine ------------------------------ *)
 VARIABLES book,            \* sequence of sheets; a sheet is a sequence of rows; a row a sequence of cells
